@@ -7,6 +7,7 @@
 #include "icase.h"
 #include "optable.h"
 #include "imodel.h"
+#include "pseudo_layout.h"
 #include "ref_alu.h"
 #include "vf.h"
 
@@ -405,10 +406,54 @@ icase::ICase build(const Seed& sd) {
         st[k < 2 ? flat::F_a + k : flat::F_b + k - 2] = flat::sext40(v);
     }
     c.pokes = icase::gen_pokes(s, c.st, c.opcode, c.expansion);
+    if (s.chance(1, 6)) {
+        // history: the accumulator extension is first written by the program through the TeakLite status word that shows it
+        // (mov ##v, st0 / st1: a0e / a1e nibble, flags, limit bits), then the ALU instruction runs on what that left behind
+        static const int mov_st[2] = {optable::find_word("mov(Imm16,Register)", {-1, 8}), optable::find_word("mov(Imm16,Register)", {-1, 9})};
+        int k = (int)s.bits(1);
+        if (mov_st[k] >= 0) {
+            uint16_t v = icase::gen_u16(s);
+            if (s.chance(1, 2))
+                v |= 0x8000; // a negative extension nibble
+            v &= (uint16_t)~0x000E; // (st0: interrupt enables stay off)
+            if (k == 1)
+                v = (uint16_t)((v & 0xF300) | (st[flat::F_page] & 0xFF)); // st1: same data page, product shifter stays neutral
+            c.more_code = {c.opcode, c.expansion};
+            c.opcode = (uint16_t)mov_st[k];
+            c.expansion = v;
+            c.cycles = 2;
+        }
+    }
     return c;
 }
 
-vf::Result check(const icase::ICase& c) {
+int layout_index_of(const char* word) {
+    for (size_t i = 0; i < layout::words().size(); ++i)
+        if (layout::words()[i].name == std::string(word))
+            return (int)i;
+    return -1;
+}
+
+vf::Result check(const icase::ICase& c0) {
+    // a case with a status-word prefix: the expected state is that of the ALU instruction on the state the prefix leaves
+    icase::ICase c = c0;
+    bool prefixed = false;
+    {
+        const optable::Info& pi = optable::info(c0.opcode);
+        if (c0.cycles == 2 && c0.more_code.size() == 2 && pi.form == "mov(Imm16,Register)" && pi.operands.size() >= 2 &&
+            (pi.operands[1].value == 8 || pi.operands[1].value == 9)) {
+            int li = layout_index_of(pi.operands[1].value == 8 ? "st0" : "st1");
+            if (li < 0)
+                return vf::Result::pass();
+            c.st = layout::write(li, c0.st, c0.expansion);
+            c.st[flat::F_pc] = c0.st[flat::F_pc] + 2;
+            c.opcode = c0.more_code[0];
+            c.expansion = c0.more_code[1];
+            c.more_code.clear();
+            c.cycles = 1;
+            prefixed = true;
+        }
+    }
     const optable::Info& info = optable::info(c.opcode);
     bool skip = false;
     std::string cls;
@@ -418,8 +463,10 @@ vf::Result check(const icase::ICase& c) {
         vf::note(0, false);
         return vf::Result::pass();
     }
-    icase::IResult r = sut().exec(c);
-    std::string where = info.form + " op=" + vf::hex(c.opcode) + " x=" + vf::hex(c.expansion);
+    icase::IResult r = sut().exec(c0);
+    std::string where = info.form + " op=" + vf::hex(c.opcode) + " x=" + vf::hex(c.expansion) + (prefixed ? " after mov ##" + vf::hex(c0.expansion) + ", " + (optable::info(c0.opcode).operands[1].value == 8 ? "st0" : "st1") : "");
+    if (prefixed)
+        vf::klass("accumulator extension written through st0 / st1 first");
     if (r.outcome != 0)
         return vf::Result::fail("C03:outcome:" + info.name, "instruction did not complete (" + r.what + ") for " + where);
     if (!(r.after == want)) {
